@@ -13,6 +13,7 @@ import (
 
 	"mellium.im/xmlstream"
 	"mellium.im/xmpp/jid"
+	"mellium.im/xmpp/stanza"
 
 	"verifharness/common"
 )
@@ -24,15 +25,45 @@ const watchdog = 4 * time.Second
 type reqSpec struct {
 	kind byte // i m p
 	id   int
+	ns   byte // namespace of the request's start element: e none, c jabber:client (the stream's), s jabber:server
+	api  byte // r: SendIQ/SendMessage/SendPresence with a token reader, e: the *Element variant
+}
+
+func nsURI(b byte) string {
+	switch b {
+	case 'c':
+		return "jabber:client"
+	case 's', 'S':
+		return "jabber:server"
+	}
+	return ""
 }
 
 type peerStanza struct {
 	kind byte
 	id   int
-	typ  byte // r e n
+	typ  byte // r result, e error (looked up); n normal, g get, t set (never looked up)
+	ns   byte // c: the stream's namespace, S: jabber:server spelled out
 }
 
-func (p peerStanza) tok() string { return fmt.Sprintf("p%c%d%c", p.kind, p.id, p.typ) }
+func (p peerStanza) tok() string {
+	t := fmt.Sprintf("p%c%d%c", p.kind, p.id, p.typ)
+	if p.ns == 'S' {
+		t += "S"
+	}
+	return t
+}
+
+func parsePeer(a string) peerStanza {
+	p := peerStanza{kind: a[1], ns: 'c'}
+	if a[len(a)-1] == 'S' {
+		p.ns = 'S'
+		a = a[:len(a)-1]
+	}
+	p.typ = a[len(a)-1]
+	p.id, _ = strconv.Atoi(a[2 : len(a)-1])
+	return p
+}
 
 func kindLocal(k byte) string {
 	switch k {
@@ -45,15 +76,19 @@ func kindLocal(k byte) string {
 }
 
 func (p peerStanza) xml() string {
-	typ := map[byte]string{'r': "result", 'e': "error"}[p.typ]
+	typ := map[byte]string{'r': "result", 'e': "error", 'g': "get", 't': "set"}[p.typ]
 	if p.typ == 'n' {
-		typ = map[byte]string{'m': "chat", 'p': "", 'i': "result"}[p.kind]
+		typ = map[byte]string{'m': "chat", 'p': "", 'i': "get"}[p.kind]
 	}
 	t := ""
 	if typ != "" {
 		t = ` type="` + typ + `"`
 	}
-	return fmt.Sprintf(`<%s xmlns="jabber:client" id="q%d"%s><n xmlns="urn:verif"/></%s>`, kindLocal(p.kind), p.id, t, kindLocal(p.kind))
+	ns := "jabber:client"
+	if p.ns == 'S' {
+		ns = "jabber:server"
+	}
+	return fmt.Sprintf(`<%s xmlns="%s" id="q%d"%s><n xmlns="urn:verif"/></%s>`, kindLocal(p.kind), ns, p.id, t, kindLocal(p.kind))
 }
 
 // gateReader is the payload of a request: the first token is the stanza start,
@@ -176,11 +211,15 @@ func isEv(who, what string) func(Ev) bool {
 
 // lookupShadow: what the table lookup of the real code must find for p.
 func (sr *sessRun) lookupShadow(p peerStanza) int {
-	if p.typ == 'n' {
+	if p.typ != 'r' && p.typ != 'e' {
 		return -1
 	}
 	j, ok := sr.table[p.id]
 	if !ok || sr.reqs[j].kind != p.kind {
+		return -1
+	}
+	// full name equality, or a request that carried no namespace
+	if rn := sr.reqs[j].ns; rn != 'e' && nsURI(rn) != nsURI(map[byte]byte{'c': 'c', 'S': 's'}[p.ns]) {
 		return -1
 	}
 	return j
@@ -196,20 +235,35 @@ func (sr *sessRun) start(i int) {
 	if typ != "" {
 		attrs = append(attrs, xml.Attr{Name: xml.Name{Local: "type"}, Value: typ})
 	}
-	st := xml.StartElement{Name: xml.Name{Local: local}, Attr: attrs}
+	st := xml.StartElement{Name: xml.Name{Space: nsURI(rq.ns), Local: local}, Attr: attrs}
 	inner := xml.StartElement{Name: xml.Name{Space: "urn:verif", Local: "q"}}
-	g := &gateReader{ctl: sr.ctl, label: "r" + strconv.Itoa(i), fail: make(chan bool, 1),
-		toks: []xml.Token{st, inner, inner.End(), st.End()}}
-	sr.gates[i] = g
 	label := "r" + strconv.Itoa(i)
+	g := &gateReader{ctl: sr.ctl, label: label, fail: make(chan bool, 1),
+		toks: []xml.Token{st, inner, inner.End(), st.End()}}
+	if rq.api == 'e' {
+		// the *Element variants build the start element themselves: the payload is what parks
+		g.toks = []xml.Token{inner, inner, inner.End()}
+	}
+	sr.gates[i] = g
 	sr.ctl.Go(label, func() {
 		var resp xmlstream.TokenReadCloser
 		var err error
-		switch rq.kind {
-		case 'i':
+		id := "q" + strconv.Itoa(rq.id)
+		name := xml.Name{Space: nsURI(rq.ns)}
+		switch {
+		case rq.kind == 'i' && rq.api == 'e':
+			g.n = 1
+			resp, err = sr.rs.S.SendIQElement(ctx, g, stanza.IQ{XMLName: name, ID: id, Type: stanza.GetIQ})
+		case rq.kind == 'i':
 			resp, err = sr.rs.S.SendIQ(ctx, g)
-		case 'm':
+		case rq.kind == 'm' && rq.api == 'e':
+			g.n = 1
+			resp, err = sr.rs.S.SendMessageElement(ctx, g, stanza.Message{XMLName: name, ID: id, Type: stanza.ChatMessage})
+		case rq.kind == 'm':
 			resp, err = sr.rs.S.SendMessage(ctx, g)
+		case rq.api == 'e':
+			g.n = 1
+			resp, err = sr.rs.S.SendPresenceElement(ctx, g, stanza.Presence{XMLName: name, ID: id})
 		default:
 			resp, err = sr.rs.S.SendPresence(ctx, g)
 		}
@@ -250,8 +304,9 @@ func (sr *sessRun) returned(i int, e Ev) {
 		if sr.serve == "offering" && sr.hit == i {
 			k = sr.hitK
 		}
-		if id != "q"+strconv.Itoa(sr.reqs[i].id) || start.Name.Local != kindLocal(sr.reqs[i].kind) {
-			sr.r.Fail("own-reply", "wrong-id-or-kind", sr.lines(), fmt.Sprintf("requester %d (%s id q%d) got <%s id=%q>", i, kindLocal(sr.reqs[i].kind), sr.reqs[i].id, start.Name.Local, id))
+		if id != "q"+strconv.Itoa(sr.reqs[i].id) || start.Name.Local != kindLocal(sr.reqs[i].kind) ||
+			(sr.reqs[i].ns != 'e' && start.Name.Space != nsURI(sr.reqs[i].ns)) {
+			sr.r.Fail("own-reply", "wrong-id-or-kind", sr.lines(), fmt.Sprintf("requester %d (<%s xmlns=%q id=q%d>) got <%s xmlns=%q id=%q>", i, kindLocal(sr.reqs[i].kind), nsURI(sr.reqs[i].ns), sr.reqs[i].id, start.Name.Local, start.Name.Space, id))
 		}
 		if k < 0 {
 			sr.r.Fail("single-delivery", "reply-without-offer", sr.lines(), fmt.Sprintf("requester %d received a response while the serve loop was not offering to it", i))
@@ -282,7 +337,7 @@ func (sr *sessRun) lines() []string {
 func (sr *sessRun) reqField() string {
 	var l []string
 	for _, q := range sr.reqs {
-		l = append(l, fmt.Sprintf("%c:%d", q.kind, q.id))
+		l = append(l, fmt.Sprintf("%c:%d:%c:%c", q.kind, q.id, q.ns, q.api))
 	}
 	return common.Join(l, ",")
 }
@@ -290,7 +345,7 @@ func (sr *sessRun) reqField() string {
 // act executes one schedule action; false if the action is not applicable in
 // the current (shadow) state.
 func (sr *sessRun) act(a string) bool {
-	num := func() int { n, _ := strconv.Atoi(strings.TrimRight(a[1:], "ren")); return n }
+	num := func() int { n, _ := strconv.Atoi(strings.TrimRight(a[1:], "rengtS")); return n }
 	switch a[0] {
 	case 'c':
 		i := num()
@@ -344,9 +399,16 @@ func (sr *sessRun) act(a string) bool {
 		if sr.serve != "idle" && !(sr.serve == "offering" && sr.hitGone()) {
 			return false
 		}
-		p := peerStanza{kind: a[1], typ: a[len(a)-1]}
-		p.id, _ = strconv.Atoi(a[2 : len(a)-1])
-		sr.trace = append(sr.trace, a)
+		p := parsePeer(a)
+		if p.kind == 'i' && (p.typ == 'g' || p.typ == 't' || p.typ == 'n') {
+			// the serve loop answers an unhandled get/set itself and needs the output lock
+			for _, st := range sr.rstate {
+				if st == "payload" {
+					return false
+				}
+			}
+		}
+		sr.trace = append(sr.trace, p.tok())
 		sr.feed(p)
 	case 'g':
 		if sr.serve != "lookup" {
@@ -411,9 +473,21 @@ func (sr *sessRun) feed(p peerStanza) {
 	k := sr.nread
 	sr.nread++
 	sr.fed = append(sr.fed, p)
+	outBefore := sr.rs.Out.Len()
+	autoReply := p.kind == 'i' && p.typ != 'r' && p.typ != 'e' // the serve loop answers an unhandled get/set itself
+	defer func() {
+		if !autoReply {
+			return
+		}
+		// wait for that reply to be on the wire: it needs the output lock, which the next
+		// requester would hold while it is parked in its transmission
+		for dl := time.Now().Add(watchdog); sr.rs.Out.Len() == outBefore && time.Now().Before(dl); {
+			time.Sleep(20 * time.Microsecond)
+		}
+	}()
 	go sr.rs.Feed([]byte(p.xml()))
 	want := sr.lookupShadow(p)
-	if p.typ != 'n' {
+	if p.typ == 'r' || p.typ == 'e' {
 		if _, ok := sr.wait(isEv("serve", "park:session.serve.lookup"), "serve loop after lookup"); !ok {
 			sr.serve = "stuck"
 			return
@@ -527,6 +601,12 @@ func runSess(r *common.Run, reqs []reqSpec, sched []string, class string) {
 		}
 		sr.act(a)
 	}
+	sr.conclude(class)
+}
+
+// conclude runs the epilogue and records line, case and verdicts.
+func (sr *sessRun) conclude(class string) {
+	r := sr.r
 	var obs string
 	if len(sr.problems) > 0 {
 		r.Hist["problem"]++
